@@ -639,6 +639,24 @@ class Interp:
             p.oblige('assert@%d' % (st.lineno - self.x.node.lineno), 'assert', truthy(v))
         elif isinstance(st, ast.Try):
             self.exec_try(st, env)
+        elif isinstance(st, ast.With):
+            # `with E as f:` -- f = E.__enter__() (the object itself for file-like contract objects); __exit__ runs on every exit
+            # and is modelled by the contract object (`closed` flag); exceptions inside the body propagate
+            mgrs = []
+            for item in st.items:
+                m = self.eval(item.context_expr, env)
+                v = m
+                if isinstance(m, ObjV) and '__enter__' in m.fields:
+                    v = self.call(m.fields['__enter__'], [m], {})
+                if item.optional_vars is not None:
+                    self.assign(item.optional_vars, v, env)
+                mgrs.append(m)
+            try:
+                self.exec_block(st.body, env)
+            finally:
+                for m in reversed(mgrs):
+                    if isinstance(m, ObjV):
+                        m.closed = True
         elif isinstance(st, ast.Delete):
             for t in st.targets:
                 if isinstance(t, ast.Name):
@@ -806,7 +824,7 @@ class Interp:
                 p.oblige('yield#%d/count' % n, 'yield', BoolVal(len(new) <= 1))
                 p.oblige('yield#%d/iff' % n, 'yield', ycond == BoolVal(len(new) == 1))
                 if len(new) == 1:
-                    p.oblige('yield#%d/value' % n, 'yield', self.values_equal(new[0], yval))
+                    p.oblige('yield#%d/value' % n, 'yield', yval(new[0]) if callable(yval) else self.values_equal(new[0], yval))
             elif len(p.out) != n_out:
                 raise Unsupported('yield inside a contract loop without a yields clause')
             for nm, f in spec.invariant(EnvView(env, p), k + 1):
@@ -1229,6 +1247,9 @@ class Interp:
                 return r if isinstance(op, ast.In) else Not(r)
             if isinstance(b, (TupleV, ListV)):
                 r = Or(*[self.compare(ast.Eq(), a, x) for x in b.items]) if b.items else BoolVal(False)
+                return r if isinstance(op, ast.In) else Not(r)
+            if isinstance(b, DictV) and isinstance(a, StrV) and a.value is not None:
+                r = BoolVal(a.value in b.items)
                 return r if isinstance(op, ast.In) else Not(r)
         if isinstance(op, (ast.Eq, ast.NotEq)):
             if isinstance(a, ObjV) and '__eq__' in a.fields:
